@@ -3,6 +3,7 @@ package main
 import (
 	"fmt"
 	"os"
+	"path/filepath"
 	"runtime/pprof"
 	"sort"
 	"strings"
@@ -14,7 +15,7 @@ var repoRoot = "/repo"
 func main() {
 	if len(os.Args) < 2 {
 		fmt.Println("usage: vcheck func <pkg.Func>... | prop <Cxx> [--tier quick|thorough] | list")
-		os.Exit(2)
+		exit(2)
 	}
 	if r := os.Getenv("VERIF_REPO"); r != "" {
 		repoRoot = r
@@ -28,22 +29,22 @@ func main() {
 	case "func":
 		rc := cmdFunc(os.Args[2:])
 		pprof.StopCPUProfile()
-		os.Exit(rc)
+		exit(rc)
 	case "func-old":
-		os.Exit(cmdFunc(os.Args[2:]))
+		exit(cmdFunc(os.Args[2:]))
 	case "prop":
-		os.Exit(cmdProp(os.Args[2:]))
+		exit(cmdProp(os.Args[2:]))
 	case "list":
-		os.Exit(cmdList())
+		exit(cmdList())
 	case "lemmas":
-		os.Exit(cmdLemmas(os.Args[2:]))
+		exit(cmdLemmas(os.Args[2:]))
 	case "sweep":
-		os.Exit(cmdSweep(os.Args[2:]))
+		exit(cmdSweep(os.Args[2:]))
 	case "stdmodels":
 		v, err := load()
 		if err != nil {
 			fmt.Println("ENGINE-ERROR:", err)
-			os.Exit(2)
+			exit(2)
 		}
 		rep, bad := v.stdModelConformance(200, 5)
 		fmt.Printf("standard-library model conformance: %v wrappers, %v proved from the model, %v runs of the real functions\n", rep["wrappers"], rep["proved_from_model"], rep["real_runs"])
@@ -51,40 +52,40 @@ func main() {
 			fmt.Println("  PROBLEM:", b)
 		}
 		if len(bad) > 0 {
-			os.Exit(1)
+			exit(1)
 		}
-		os.Exit(0)
+		exit(0)
 	case "coverage":
-		os.Exit(cmdCoverage())
+		exit(cmdCoverage())
 	case "specvectors":
 		v, err := load()
 		if err != nil {
 			fmt.Println("ENGINE-ERROR:", err)
-			os.Exit(2)
+			exit(2)
 		}
 		n, bad, first := specVectors(v)
 		fmt.Printf("RFC 9380 vectors evaluated against the contract-level specification: %d, mismatches %d %s\n", n, bad, first)
 		if bad > 0 || n == 0 {
-			os.Exit(1)
+			exit(1)
 		}
-		os.Exit(0)
+		exit(0)
 	case "isohom":
 		v, err := load()
 		if err != nil {
 			fmt.Println("ENGINE-ERROR:", err)
-			os.Exit(2)
+			exit(2)
 		}
 		e, nt, f, w := testIsoHom(v, 2000, 1)
 		fmt.Printf("iso_hom_chord: evaluated=%d with-hypotheses-true=%d false=%d %s\n", e, nt, f, w)
 		if f > 0 {
-			os.Exit(1)
+			exit(1)
 		}
-		os.Exit(0)
+		exit(0)
 	case "replay":
-		os.Exit(cmdReplay(os.Args[2:]))
+		exit(cmdReplay(os.Args[2:]))
 	}
 	fmt.Println("unknown command")
-	os.Exit(2)
+	exit(2)
 }
 
 func load() (*Verifier, error) {
@@ -242,4 +243,20 @@ func cmdCoverage() int {
 	}
 	fmt.Printf("%d functions, %d untouched\n", len(rows), untouched)
 	return 0
+}
+
+// exit removes this process's scratch files (SMT scripts, scratch-copy replay directories) and exits.
+func exit(rc int) {
+	if !keepSMT {
+		ms, _ := filepath.Glob(filepath.Join(workDir, fmt.Sprintf("*-%d.*.smt2", os.Getpid())))
+		for _, m := range ms {
+			os.Remove(m)
+		}
+	}
+	if os.Getenv("VERIF_REPO") != "" {
+		os.RemoveAll(filepath.Join(os.TempDir(), fmt.Sprintf("verif-replay-%d", os.Getpid())))
+	} else {
+		os.RemoveAll(filepath.Join(verifRoot, "build", "replay", fmt.Sprintf("p%d", os.Getpid())))
+	}
+	os.Exit(rc)
 }
